@@ -323,3 +323,13 @@ Proof.
       intros j Hj. destruct (Nat.eq_dec j a) as [->|Hne]; [exact E|apply Hpre; lia].
     + intros j Hj. destruct (Nat.eq_dec j a) as [->|Hne]; [exact E|apply IH; lia].
 Qed.
+
+Lemma py_filter_total {X} (f : X -> res bool) (g : X -> bool) xs :
+  (forall x, In x xs -> f x = Ok (g x)) -> py_filter f xs = Ok (filter g xs).
+Proof.
+  induction xs as [|x r IH]; intro H; simpl; [reflexivity|].
+  rewrite (H x) by (left; reflexivity). simpl. rewrite IH by (intros y Hy; apply H; right; exact Hy). simpl.
+  destruct (g x); reflexivity.
+Qed.
+Lemma filter_map_swap {A B} (h : A -> B) (g : B -> bool) l : filter g (map h l) = map h (filter (fun a => g (h a)) l).
+Proof. induction l as [|a l IH]; simpl; [reflexivity|]. destruct (g (h a)); simpl; rewrite IH; reflexivity. Qed.
